@@ -104,6 +104,8 @@ def build_cases(tier, seed):
     cases = handwritten()
     from .. import eqstress as E
     cases += E.programs()          # type equality out of phase / deep shared chains, through the checker
+    from .. import declshapes as DS
+    cases += list(DS.stream())     # alias chains under every action, rho-shaped definition cycles, duplicate declarations, ladders
     cases += list(T.stream(seed, n_mut, n_rand))
     cases += list(G.stream(seed, n_garb))
     seen, out = set(), []
